@@ -201,6 +201,9 @@ func c13Func(p *an.Prog, r *an.Report, short string, fn *ssa.Function, dir strin
 				if bi, ok := x.Call.Value.(*ssa.Builtin); ok && bi.Name() == "len" {
 					continue
 				}
+				if isGuardHelper(fn, x) {
+					continue // a length check factored into a same-package helper: part of the guards
+				}
 				if codec != nil {
 					bad = append(bad, "second call at "+p.Pos(x.Pos()))
 				}
@@ -277,7 +280,7 @@ func c13Func(p *an.Prog, r *an.Report, short string, fn *ssa.Function, dir strin
 		}
 		bi, ok := c.Call.Value.(*ssa.Builtin)
 		return ok && bi.Name() == "len" && c.Call.Args[0] == ssa.Value(prm)
-	}, Inline: func(*ssa.Function) bool { return false },
+	}, Inline: func(f *ssa.Function) bool { return an.InLib(f) && an.FnPkgPath(f) == an.FnPkgPath(fn) && len(f.Blocks) > 0 },
 		OnCall: func(ev *an.PEval, call *ssa.Call, callee *ssa.Function, args []an.AV) (an.AV, bool) {
 			return an.AV{}, false
 		}}
@@ -308,4 +311,54 @@ func c13Func(p *an.Prog, r *an.Report, short string, fn *ssa.Function, dir strin
 func isExtractOf(v ssa.Value, call *ssa.Call, idx int) bool {
 	e, ok := v.(*ssa.Extract)
 	return ok && e.Tuple == ssa.Value(call) && e.Index == idx
+}
+
+
+// isGuardHelper: a call to a function of the same package that only inspects integers (lengths)
+// and reports an error or a bool: arguments are integer-typed, results are error/bool only, and
+// the helper's own body calls nothing but logging, error constructors and other guard helpers.
+func isGuardHelper(fn *ssa.Function, c *ssa.Call) bool {
+	return guardHelperFn(fn, c.Call.StaticCallee(), 0)
+}
+
+func guardHelperFn(root, g *ssa.Function, depth int) bool {
+	if g == nil || depth > 2 || !an.InLib(g) || an.FnPkgPath(g) != an.FnPkgPath(root) || len(g.Blocks) == 0 || g.Signature.Recv() != nil {
+		return false
+	}
+	for _, prm := range g.Params {
+		if !isIntegerType(prm.Type()) && !isErrorType(prm.Type()) {
+			return false
+		}
+	}
+	res := g.Signature.Results()
+	if res.Len() == 0 {
+		return false
+	}
+	for i := 0; i < res.Len(); i++ {
+		t := res.At(i).Type()
+		if isErrorType(t) {
+			continue
+		}
+		if b, ok := t.Underlying().(*types.Basic); ok && b.Kind() == types.Bool {
+			continue
+		}
+		return false
+	}
+	for _, blk := range g.Blocks {
+		for _, in := range blk.Instrs {
+			call, ok := in.(*ssa.Call)
+			if !ok || an.IsLogPlumbing(in) {
+				continue
+			}
+			if _, isB := call.Call.Value.(*ssa.Builtin); isB {
+				continue
+			}
+			callee := call.Call.StaticCallee()
+			if callee != nil && (an.ErrorCtor(callee) || guardHelperFn(root, callee, depth+1)) {
+				continue
+			}
+			return false
+		}
+	}
+	return true
 }
